@@ -33,6 +33,37 @@ func genC20(r *h.Rand, tier string) []h.Case {
 	for i := 0; i < n; i++ {
 		var src string
 		tags := []string{}
+		if i%16 == 7 {
+			// deep trees: long operator chains, else-if ladders, nested bodies, nested parentheses
+			k := 40 + r.Intn(260)
+			switch r.Intn(5) {
+			case 0:
+				src = "{{ v0"
+				for j := 1; j < k; j++ {
+					src += fmt.Sprintf(" + v%d", j)
+				}
+				src += " }}"
+			case 1:
+				src = "{{if c0}}b0"
+				for j := 1; j < k; j++ {
+					src += fmt.Sprintf("{{else if c%d}}b%d{{ x%d }}", j, j, j)
+				}
+				src += "{{else}}last{{end}}"
+			case 2:
+				for j := 0; j < k/2; j++ {
+					src += fmt.Sprintf("{{if c%d}}{{range r%d}}", j, j)
+				}
+				src += "{{ leaf }}" + strings.Repeat("{{end}}{{end}}", k/2)
+			case 3:
+				src = "{{ " + strings.Repeat("(", k) + "x" + strings.Repeat(")", k) + " }}"
+			default:
+				src = "{{ f(" + strings.Repeat("g(", k) + "x, 1" + strings.Repeat(")", k) + ", 2) | h | h2: 3 }}"
+			}
+			cs = append(cs, h.Case{Stream: "walk", Meta: sx.L(sx.A("src"), sx.S(src)), Tags: []string{"deep"}, NonTrivial: true,
+				Prep:   sx.L(sx.A("walk-prep")),
+				Finish: func(tree *sx.Sexp) *sx.Sexp { return sx.L(sx.A("walk"), tree) }})
+			continue
+		}
 		switch i % 4 {
 		case 1:
 			// structural near-misses (clause markers in every kind of body, missing / surplus ends):
